@@ -32,4 +32,7 @@ VARIANTS = [
     V("N-reorder-rows", T + "clip_classification.py", "    (terms.balanced_accuracy, metrics.balanced_accuracy),\n    (terms.accuracy, metrics.accuracy),\n", "    (terms.accuracy, metrics.accuracy),\n    (terms.balanced_accuracy, metrics.balanced_accuracy),\n", None),
     V("N-none-test-inverted", M, "        [y if y is not None else num_classes for y in y_true]\n    )\n    y_score = np.c_[y_score, 1 - y_score.sum(axis=1, keepdims=True)]\n    return metrics.top_k", "        [num_classes if y is None else y for y in y_true]\n    )\n    y_score = np.c_[y_score, 1 - y_score.sum(axis=1, keepdims=True)]\n    return metrics.top_k", None),
     V("N-guard-if-statement", T + "clip_classification.py", "    return float(np.mean(non_none_scores)) if non_none_scores else 0.0", "    if not non_none_scores:\n        return 0.0\n    return float(np.mean(non_none_scores))", None),
+    # wave 6: the encoder the tasks encode with
+    V("encoder-key-by-label(C19/R19.1)", "src/soundevent/evaluation/encoding.py", "            (tag.term, tag.value): i for i, tag in enumerate(tags)", "            (tag.term.label, tag.value): i for i, tag in enumerate(tags)", "C19/R19.1",
+      also=(("src/soundevent/evaluation/encoding.py", "        return self._mapping.get((tag.term, tag.value))", "        return self._mapping.get((tag.term.label, tag.value))"),)),
 ]
